@@ -226,6 +226,9 @@ func insertAt(nodes []gen.Node, k *int, ins []gen.Node) ([]gen.Node, bool) {
 	return nodes, false
 }
 
+// insertIntoEmbedBodies makes the bodies of embeds (outside their blocks) positions of insertAt as well.
+var insertIntoEmbedBodies bool
+
 func copyWithInsert(n gen.Node, k *int, ins []gen.Node) (gen.Node, bool) {
 	switch x := n.(type) {
 	case *gen.NIf:
@@ -281,6 +284,14 @@ func copyWithInsert(n gen.Node, k *int, ins []gen.Node) (gen.Node, bool) {
 		}
 	case *gen.NEmbed:
 		c := *x
+		if insertIntoEmbedBodies {
+			// directly in the embed body, in front of the overrides (only C20 asks for this: what stands there is
+			// never executed, but it is parsed)
+			if b, ok := insertAt(c.Stray, k, ins); ok {
+				c.Stray = b
+				return &c, true
+			}
+		}
 		c.Blocks = append([]*gen.NBlock{}, x.Blocks...)
 		for i, blk := range c.Blocks {
 			bc := *blk
